@@ -19,6 +19,7 @@ from __future__ import annotations
 import itertools
 import json
 import os
+import re
 import tempfile
 
 from ..core import repo
@@ -59,16 +60,24 @@ NCOL, NROW = 2, 2
 SHARED = ["T0", "T1", "S0", "F0", "Z0", "PH", "PF"]
 
 
-def section_keys(prefix=""):
-    return [f"{prefix}H{j}" for j in range(NCOL)] + [f"{prefix}D{r}.{c}" for r in range(NROW) for c in range(NCOL)]
+def hkey(prefix, row, j):
+    """element key of header cell j of header row `row` (row 0 keeps the short form H<j>)"""
+    return f"{prefix}H{j}" if row == 0 else f"{prefix}H{row}x{j}"
 
 
-def element_keys(kind, nsec=1):
+def section_keys(prefix="", hrows=1):
+    return ([hkey(prefix, r, j) for r in range(hrows) for j in range(NCOL)]
+            + [f"{prefix}D{r}.{c}" for r in range(NROW) for c in range(NCOL)])
+
+
+def element_keys(kind, nsec=1, hrows=None):
+    """hrows: number of column-header rows per section (default 1 each)"""
+    hrows = hrows or [1] * nsec
     if kind == "figure":
         return list(SHARED)
     if kind == "single":
-        return SHARED + section_keys()
-    return SHARED + [k for s in range(nsec) for k in section_keys("ABCD"[s])]
+        return SHARED + section_keys("", hrows[0])
+    return SHARED + [k for s in range(nsec) for k in section_keys("ABCD"[s], hrows[s])]
 
 
 def _attrs(vals, shape):
@@ -97,12 +106,23 @@ def _attrs(vals, shape):
     return out
 
 
-def _section_spec(elems, prefix, bcol, extra):
+def bkey_header(prefix, row):
+    return prefix + ("header_top" if row == 0 else f"header{row}_top")
+
+
+def _section_spec(elems, prefix, bcol, extra, hrows=1):
     spec = {"n": NROW, "cols": ["s"] * NCOL, "header": "explicit"}
-    h = _attrs([elems[f"{prefix}H{j}"] for j in range(NCOL)], "cols")
-    if bcol.get(prefix + "header_top"):
-        h["border_color_top"] = bcol[prefix + "header_top"]
-    spec["header_attrs"] = h
+    rows_attrs = []
+    for r in range(hrows):
+        h = _attrs([elems[hkey(prefix, r, j)] for j in range(NCOL)], "cols")
+        if bcol.get(bkey_header(prefix, r)):
+            h["border_color_top"] = bcol[bkey_header(prefix, r)]
+        rows_attrs.append(h)
+    if hrows == 1:
+        spec["header_attrs"] = rows_attrs[0]
+    else:   # several header rows, each with its own colours / fonts
+        spec["header"] = "rows"
+        spec["header_rows_attrs"] = rows_attrs
     b = _attrs([elems[f"{prefix}D{r}.{c}"] for r in range(NROW) for c in range(NCOL)], "matrix")
     if bcol.get(prefix + "body_left"):
         b["border_color_left"] = [list(bcol[prefix + "body_left"])]
@@ -137,10 +157,11 @@ def make_spec(case):
         spec["footnote_attrs"].pop("border_color_bottom", None)
         return spec
     if kind == "single":
-        spec.update(_section_spec(elems, "", bcol, case.get("extra")))
+        spec.update(_section_spec(elems, "", bcol, case.get("extra"), (case.get("hrows") or [1])[0]))
         return spec
     spec["kind"] = "multi"
-    spec["sections"] = [_section_spec(elems, "ABCD"[s], bcol, None) for s in range(case["nsec"])]
+    hrows = case.get("hrows") or [1] * case["nsec"]
+    spec["sections"] = [_section_spec(elems, "ABCD"[s], bcol, None, hrows[s]) for s in range(case["nsec"])]
     return spec
 
 
@@ -156,12 +177,12 @@ def element_of(text, kind):
         return f"{p}{a}"
     if kind == "single":
         if p == "H" and b is not None:
-            return f"H{b}"
+            return hkey("", a, b)
         if p == "D" and b is not None:
             return f"D{a}.{b}"
     if kind == "multi":
         if len(p) == 2 and p[0] == "H" and b is not None:
-            return f"{p[1]}H{b}"
+            return hkey(p[1], a, b)
         if len(p) == 1 and p in "ABCD" and b is not None:
             return f"{p}D{a}.{b}"
     return None
@@ -331,7 +352,8 @@ def eval_case(case: dict) -> dict:
                             sec = key[0] if kind == "multi" and key[0] in "ABCD" and key[1] in "HD" else ""
                             base = key[len(sec):]
                             if base.startswith("H") and side == "t":
-                                want = (bcol.get(sec + "header_top") or [None] * NCOL)[j]
+                                hrow = int(base[1:].split("x")[0]) if "x" in base else 0
+                                want = (bcol.get(bkey_header(sec, hrow)) or [None] * NCOL)[j]
                             elif base.startswith("D") and side == "l":
                                 want = (bcol.get(sec + "body_left") or [None] * NCOL)[j]
                             elif base == "F0" and side == "b":
@@ -348,8 +370,10 @@ def eval_case(case: dict) -> dict:
             bump("element-not-rendered")
     bump("elements-joined", sum(seen.values()))
     for k in seen:
-        comp = k[1] if (kind == "multi" and k not in SHARED) else "".join(ch for ch in k if ch.isalpha())
+        comp = k[1] if (kind == "multi" and k not in SHARED) else re.match(r"[A-Z]+", k).group(0)
         bump(f"joined-{comp}")
+        if "x" in k:
+            bump("joined-later-header-row")
     if bcol:
         bump("docs-with-border-colour-requests")
     ncol_used = len({c for v in elems.values() for c in v[:2] if c not in (None, "", "black")})
@@ -375,17 +399,19 @@ def colour_slots(keys):
     return [(k, r) for k in keys for r in (0, 1)]
 
 
-def rotation_case(kind, d, nsec=1, stride=None, fonts=True, **more):
+def rotation_case(kind, d, nsec=1, stride=None, fonts=True, hrows=None, **more):
     """Document number d of a family of 657: slot s carries master-order colour (d + stride*s) mod 657,
     so that over d = 0..656 every slot (component x role) sees every colour, and all colours of one
     document are pairwise distinct."""
-    keys = element_keys(kind, nsec)
+    keys = element_keys(kind, nsec, hrows)
     slots = colour_slots(keys)
     border_slots = []
     if kind != "figure":
         for s in range(nsec):
             p = "ABCD"[s] if kind == "multi" else ""
-            border_slots += [(p + "body_left", 0), (p + "body_left", 1), (p + "header_top", 0), (p + "header_top", 1)]
+            border_slots += [(p + "body_left", 0), (p + "body_left", 1)]
+            for hr in range((hrows or [1] * nsec)[s]):
+                border_slots += [(bkey_header(p, hr), 0), (bkey_header(p, hr), 1)]
         border_slots.append(("footnote_bottom", None))
     nslots = len(slots) + len(border_slots)
     stride = stride or (657 // nslots)
@@ -406,6 +432,8 @@ def rotation_case(kind, d, nsec=1, stride=None, fonts=True, **more):
             "source": "para" if d % 2 == 0 else "table"}
     if kind == "multi":
         case["nsec"] = nsec
+    if hrows:
+        case["hrows"] = list(hrows)
     case.update(more)
     return case
 
@@ -449,7 +477,8 @@ def plan(run):
         "figure with 1 and 2 figures, all 657 documents each; further strides (1 = master-order neighbours in one document, 2 3 5 7 11 13) "
         "(quick: strides 1 and 7, every 4th document of a seed-rotated phase; thorough: all seven, every document, every section count); all 255 "
         "non-empty subsets of an 8-colour palette {first, neighbours of black, black, two equal-RGB names, last} x 3 slot layouts x kinds; "
-        "each of the 10 fonts on each element x kinds; page_by / subline_by / paginated variants of the single kind. "
+        "documents with 2-3 column-header rows per section (single: flat list; 2/3/4 sections: nested lists), each row with its own colours "
+        "(quick: every 3rd document of a seed-rotated phase); each of the 10 fonts on each element x kinds; page_by / subline_by / paginated variants of the single kind. "
         "non-trivial = at least one non-default colour or non-default font requested; distinct = distinct case")
     run.assumptions = [
         "the RTF reader is correct; runs are joined with the configured element by the sentinel tag in their text",
@@ -489,6 +518,18 @@ def plan(run):
                 more.append(rotation_case("multi", d, nsec, stride=stride))
             more.append(rotation_case("figure", d, nfig=1 + d % 2, stride=stride, page=fig_page(d)))
     run.layer("rotation-other-strides", "mc.props.c12:eval_case", more, chunk=30, total=len(more))
+
+    # ---- several column-header rows per section (single: flat list of 2 / 3 rows; multi: nested lists with 1-3 rows per
+    # section).  All colours of a document are pairwise distinct, so every colour of a 2nd / 3rd header row is used ONLY there.
+    hr = []
+    for d in range(seed % (3 if quick else 1), 657, 3 if quick else 1):
+        hr.append(rotation_case("single", d, hrows=[2 + d % 2]))
+        hr.append(rotation_case("multi", d, 2, hrows=[2, 3] if d % 2 else [3, 2]))
+        hr.append(rotation_case("multi", d, 3, hrows=[[1, 2, 3], [2, 3, 1], [3, 1, 2]][d % 3]))
+        if not quick:
+            hr.append(rotation_case("multi", d, 4, hrows=[[2, 1, 3, 2], [1, 3, 2, 2]][d % 2]))
+            hr.append(rotation_case("single", d, hrows=[3 - d % 2], stride=1))
+    run.layer("several-header-rows", "mc.props.c12:eval_case", hr, chunk=30, total=len(hr))
 
     # ---- palette subsets
     subs = []
@@ -531,7 +572,7 @@ def plan(run):
             var.append(cs)
     run.layer("single-strategies-and-pages", "mc.props.c12:eval_case", var, chunk=30, total=len(var))
 
-    for need in ("kind=single", "kind=multi", "kind=figure", "refs-cf", "refs-chcbpat", "refs-cb", "font-refs", "refs-resolved-to-requested-rgb",
+    for need in ("kind=single", "kind=multi", "kind=figure", "refs-cf", "refs-chcbpat", "refs-cb", "font-refs", "refs-resolved-to-requested-rgb", "joined-later-header-row",
                  "joined-T", "joined-S", "joined-H", "joined-D", "joined-F", "joined-Z", "joined-PH", "joined-PF"):
         if not run.cnt.get(need):
             run.harness_errors.append({"layer": "vacuity", "case": None, "error": f"vacuity guard: counter {need!r} is zero"})
